@@ -66,8 +66,10 @@ F_TUPLE = "P10-yaml-tuple-coords-not-loadable"
 
 RANK_POOLS = [["M", "K", "N", "P"], ["A", "B", "C", "D"], ["X1", "Y0", "Z", "W2"]]
 NAMES = ["", "", "A", "T1", "my tensor", "x+y", "123", "true", "a: b"]
-INT_POOL = [1, 2, 3, 5, 7, -1, -4, 10, 0]
-FLOAT_POOL = [0.5, 1.5, -2.5, 0.25]
+# (nothing is computed with these values, so exact == holds for every int and float: many-digit, non-dyadic and
+# extreme values are as legitimate as small ones)
+INT_POOL = [1, 2, 3, 5, 7, -1, -4, 10, 0, 2 ** 40, -(2 ** 70)]
+FLOAT_POOL = [0.5, 1.5, -2.5, 0.25, 0.1, 1 / 3, 0.30000000000000004, 1e-07, 1e+22, -123456.7890123]
 DEFAULTS = [0, 0, 0, 0, 3, -1, 0.5]
 
 
@@ -527,7 +529,7 @@ def check_yaml(case, rec):
 # ----------------------------------------------------------------------------
 # part: rank-0 tensors (enumerated)
 
-R0_VALUES = [0, 1, 2, -3, 10, 0.5, -2.5, 1.5]
+R0_VALUES = [0, 1, 2, -3, 10, 0.5, -2.5, 1.5, 0.1, 1 / 3, 1e+22, 2 ** 70]
 R0_NAMES = ["", "A", "my tensor", "123", "true"]
 R0_ROUTES = ["ctor", "fromUncompressed", "fromUncompressed-kw"]
 
@@ -668,6 +670,61 @@ def check_random(case, rec):
 
 
 # ----------------------------------------------------------------------------
+# "reproducible with a given seed" also means: in another interpreter run.  A handful of fixed requests
+# (string, int and float seeds) is constructed here and in a fresh interpreter with another hash seed.
+
+XPROC = [{"shape": [4, 3], "density": [0.8, 0.6], "interval": 5, "seed": "seed-1", "default": 0},
+         {"shape": [6], "density": 0.5, "interval": 9, "seed": "s", "default": 0},
+         {"shape": [3, 2, 2], "density": [1.0, 0.7, 0.7], "interval": 4, "seed": 7, "default": 0},
+         {"shape": [5], "density": 0.6, "interval": 3, "seed": 2.5, "default": 2}]
+
+_XPROC_SCRIPT = """
+import json, sys
+from fibertree import Fiber, Tensor, Payload
+req = json.loads(sys.argv[1])
+def tree(f):
+    return [[c, tree(p) if isinstance(p, Fiber) else Payload.get(p)] for c, p in zip(f.coords, f.payloads)]
+f = Fiber.fromRandom(list(req["shape"]), req["density"], req["interval"], req["seed"], default=req["default"])
+ids = ["M", "K", "N"][:len(req["shape"])]
+t = Tensor.fromRandom(ids, list(req["shape"]), req["density"], req["interval"], seed=req["seed"], default=req["default"])
+print(json.dumps([tree(f), tree(t.getRoot())]))
+"""
+
+
+def xproc_cases(tier):
+    for i, req in enumerate(XPROC):
+        yield dict(req, hashseed=str(101 + i))
+
+
+def check_xproc(case, rec):
+    import json
+    import subprocess
+    import sys
+    from ..run import REPO
+    req = {k: case[k] for k in ("shape", "density", "interval", "seed", "default")}
+
+    def tree(f):
+        return [[c, tree(p) if isinstance(p, Fiber) else Payload.get(p)] for c, p in zip(f.coords, f.payloads)]
+
+    dens = lambda: list(req["density"]) if isinstance(req["density"], list) else req["density"]
+    f = Fiber.fromRandom(list(req["shape"]), dens(), req["interval"], req["seed"], default=req["default"])
+    ids = ["M", "K", "N"][:len(req["shape"])]
+    t = Tensor.fromRandom(ids, list(req["shape"]), dens(), req["interval"], seed=req["seed"], default=req["default"])
+    here = [tree(f), tree(t.getRoot())]
+    env = dict(os.environ, PYTHONPATH=REPO, PYTHONHASHSEED=case["hashseed"])
+    out = subprocess.run([sys.executable, "-c", _XPROC_SCRIPT, json.dumps(req)], env=env, capture_output=True, text=True,
+                         cwd=REPO)
+    if out.returncode != 0:
+        raise RuntimeError(f"helper interpreter failed: {out.stderr[-500:]}")
+    there = json.loads(out.stdout.strip().splitlines()[-1])
+    if json.loads(json.dumps(here)) != there:
+        raise Violation("random-repro", f"fromRandom with seed {req['seed']!r} gives {here} in this interpreter and "
+                        f"{there} in another one (PYTHONHASHSEED={case['hashseed']})")
+    rec.cls("str-seed", isinstance(req["seed"], str))
+    rec.nontrivial(bool(here[0]))
+
+
+# ----------------------------------------------------------------------------
 # pinned reproducers of the findings
 
 def _pin_uncompress():
@@ -716,6 +773,9 @@ PARTS = [
          exhaustive_note=f"rank-0 tensors: {len(R0_VALUES)} values x {len(R0_NAMES)} names x "
                          f"{len(R0_ROUTES)} constructors, YAML round trip of each"),
     Part("random", random_cases(), check_random, n_quick=700, n_thorough=3000),
+    Part("random-other-interpreter", None, check_xproc, n_quick=0, n_thorough=0, enumerate=xproc_cases,
+         exhaustive_note=f"{len(XPROC)} fixed fromRandom requests (string, int, float seeds) built here and in a fresh "
+                         "interpreter started with another PYTHONHASHSEED"),
 ]
 
 
